@@ -598,6 +598,15 @@ func shrinkC09(ctx *Ctx, m *common.Model, c C09Case, v *common.Violation) C09Cas
 	return c
 }
 
+// coalStartModel starts the Lean driver of this verif tree (check passes VERIF_DRIVER on normal
+// runs; on --replay it does not, and the default path is the main copy's).
+func coalStartModel(ctx *Ctx) (*common.Model, error) {
+	if os.Getenv("VERIF_DRIVER") == "" {
+		common.DriverPath = ctx.Verif + "/lean/.lake/build/bin/driver"
+	}
+	return common.StartModel()
+}
+
 // ---- the family ---------------------------------------------------------------------------
 
 func c09Family(ctx *Ctx) error {
@@ -613,7 +622,7 @@ func c09Family(ctx *Ctx) error {
 	}
 	models := make([]*common.Model, nw)
 	for i := range models {
-		m, err := common.StartModel()
+		m, err := coalStartModel(ctx)
 		if err != nil {
 			return err
 		}
